@@ -39,8 +39,10 @@ lock = threading.Lock()
 def worker(i):
     wt = '/tmp/rbp-suite-%d' % i
     tgt, ev = wt + '-target', wt + '-evidence'
-    sh('git -C %s worktree remove --force %s' % (REPO, wt)); shutil.rmtree(wt, ignore_errors=True)
-    r = sh('git -C %s worktree add --detach %s HEAD' % (REPO, wt))
+    with lock:
+        sh('git -C %s worktree remove --force %s' % (REPO, wt)); shutil.rmtree(wt, ignore_errors=True)
+    with lock:
+        r = sh('git -C %s worktree add --detach %s HEAD' % (REPO, wt))
     if r.returncode:
         print('worker %d: %s' % (i, r.stdout)); return
     shutil.rmtree(tgt, ignore_errors=True); shutil.rmtree(ev, ignore_errors=True)
